@@ -4,7 +4,7 @@
 From Coq Require Import NArith List Bool.
 Import ListNotations.
 From stdpp Require Import gmap.
-From Cao Require Import Alloc AllocProofs Gc GcProofs.
+From Cao Require Import Alloc AllocProofs Gc GcProofs AllocGc.
 Local Open Scope N_scope.
 
 (* over every history of allocations (with or without nested collections, which may release any
@@ -57,6 +57,38 @@ Theorem C05_gc_complete :
     no_gray h'.
 Proof. exact gc_spec. Qed.
 Print Assumptions C05_gc_complete.
+
+(* Link of the two halves: when every outstanding allocation is owned by an object of the heap
+   graph and the collection nested in an allocation releases exactly the allocations whose owner it
+   frees ([gc_mask]), OutOfMemory is reported only when the allocations of the objects REACHABLE
+   from the roots and the guarded objects, plus the request, exceed the limit - and a request that
+   fits next to them always succeeds, whatever garbage is outstanding. *)
+Theorem C05_oom_only_when_reachable_full :
+  forall (s : lstate) (h : gmap N obj) (roots owners : list N),
+    LInv s -> closed h -> no_gray h -> length owners = length (l_out s) ->
+    forall size align forced,
+      snd (l_step s (LAlloc size align forced (gc_mask h roots owners))) = Some false ->
+      a_limit (l_st s) < bytes_where (gc_mask h roots owners) (l_out s) + (size + align).
+Proof. exact oom_only_when_reachable_full. Qed.
+Print Assumptions C05_oom_only_when_reachable_full.
+
+Theorem C05_reachable_fits_never_oom :
+  forall (s : lstate) (h : gmap N obj) (roots owners : list N),
+    LInv s -> closed h -> no_gray h -> length owners = length (l_out s) ->
+    forall size align forced,
+      bytes_where (gc_mask h roots owners) (l_out s) + (size + align) <= a_limit (l_st s) ->
+      snd (l_step s (LAlloc size align forced (gc_mask h roots owners))) = Some true.
+Proof. exact reachable_fits_never_oom. Qed.
+Print Assumptions C05_reachable_fits_never_oom.
+
+(* [bytes_where (gc_mask ..)] counts allocation i exactly when its owner is live: in the heap and
+   reachable from the guarded objects and the roots *)
+Theorem C05_live_bytes_counts :
+  forall (h : gmap N obj) (roots owners : list N), closed h -> no_gray h ->
+    forall i a b, owners !! i = Some a -> gc_mask h roots owners !! i = Some b ->
+      (b = true <-> live h roots a).
+Proof. intros h roots owners Hc Hn. exact (live_bytes_counts h roots owners Hc Hn). Qed.
+Print Assumptions C05_live_bytes_counts.
 
 Example C05_nonvacuous :
   let s0 := {| l_st := a_new 100; l_out := [] |} in
